@@ -105,7 +105,7 @@ func (r *runner) eval(s *subject) (finding, *result) {
 }
 
 // minimise shrinks s while the finding keeps its head; returns the minimal subject and what had to keep its name.
-func (r *runner) minimise(s *subject, target finding, maxTries int, limit time.Duration) (*subject, []string, int) {
+func (r *runner) minimise(s *subject, target finding, maxTries int, limit time.Duration) (*subject, []string, int, bool) {
 	t0 := time.Now()
 	sh := &shrinker{maxTries: maxTries, deadline: time.Now().Add(limit)}
 	sh.fails = func(c *subject) bool {
@@ -118,7 +118,7 @@ func (r *runner) minimise(s *subject, target finding, maxTries int, limit time.D
 	r.mu.Lock()
 	r.shrinkSpent += time.Since(t0)
 	r.mu.Unlock()
-	return min, sh.kept, sh.tries
+	return min, sh.kept, sh.tries, sh.partial
 }
 
 // explainedBy: a failing unit whose finding head equals that of an already reported violation whose minimal
@@ -183,8 +183,9 @@ func (r *runner) handle(s *subject, f finding, origin, known string) {
 			maxTries, limit = 60, 8*time.Second
 			r.count("shrink.over-budget")
 		}
-		v.Subject, v.Kept, v.Tries = r.minimise(s, f, maxTries, limit)
-		v.Shrunk = true
+		var partial bool
+		v.Subject, v.Kept, v.Tries, partial = r.minimise(s, f, maxTries, limit)
+		v.Shrunk = !partial
 	}
 	v.Key = stableKey(v.Finding, v.Subject, v.Kept)
 	r.mu.Lock()
